@@ -13,3 +13,16 @@ var C18ErrGotGoAway = errClientConnGotGoAway
 
 // C18ErrUnusable is returned when a connection cannot take the request.
 var C18ErrUnusable = errClientConnUnusable
+
+// C17WriteBusy reports whether some goroutine holds the connection's write
+// lock (wmu) and whether one holds the new-request lock (reqHeaderMu). Used by
+// the harness only to keep cases out of states that testing/synctest cannot
+// wait on (a goroutine blocked on a sync.Mutex is not durably blocked).
+func (cc *ClientConn) C17WriteBusy() (wmuHeld, reqHeaderHeld bool) {
+	if cc.wmu.TryLock() {
+		cc.wmu.Unlock()
+	} else {
+		wmuHeld = true
+	}
+	return wmuHeld, len(cc.reqHeaderMu) > 0
+}
